@@ -31,7 +31,8 @@ ASSUMPTIONS = ["check_each_level stays at its default (True)", "ContinuousTapCon
                "control_step", "result equality: |a-b| <= 1e-6 + 1e-6|b| against runpp on a scrubbed copy"]
 REACH_PROBES = ["control_loop_hit_max_iter", "run_invocation_failed", "multi_level", "tap_at_limit_on_return",
                 "second_call_on_same_net", "probe_controller_never_converges", "returned_normally",
-                "trafo3w_tap_changer_on_mv_winding", "vectorised_tap_controller"]
+                "trafo3w_tap_changer_on_mv_winding", "vectorised_tap_controller",
+                "tap_step_at_180_degrees"]
 
 TEMPLATES = [("feeder", 4), ("feeder_t3w", 3), ("feeder_taptable", 1)]
 
@@ -54,15 +55,16 @@ def warm():
 def gen_controller(rng):
     kind = c08._wchoice(rng, [("discrete", 5), ("discrete_step", 2), ("continuous", 3), ("const", 2), ("probe", 3),
                                 ("characteristic", 2)])
-    lvl = rng.choice([0, 0, 0, 1, 2, [0, 1], [1, 2]])
-    c = {"op": "controller", "kind": kind, "level": lvl, "order": rng.choice([0, 0, 1, 2, -1]),
+    lvl = rng.choice([0, 0, 0, 1, 2, [0, 1], [1, 2], -1, 0.5, [0.5, 2]])
+    c = {"op": "controller", "kind": kind, "level": lvl, "order": rng.choice([0, 0, 1, 2, -1, -2.5, 10]),
          "in_service": rng.random() < 0.9}
     if kind in ("discrete", "discrete_step", "continuous"):
         c.update(element=rng.choice(["trafo", "trafo", "trafo3w"]), row=rng.randrange(100),
                  side=rng.choice(["lv", "lv", "hv", "mv"]), vm_set=round(rng.uniform(0.96, 1.04), 3),
                  half=rng.choice([0.02, 0.015, 0.01, 0.004, 0.001]), tol=rng.choice([1e-3, 1e-3, 5e-3]),
                  bounds=rng.random() < 0.8, hunting=rng.choice([None, None, 3]),
-                 multi=rng.random() < 0.2)       # one controller object for two transformers (list of indices)
+                 multi=rng.random() < 0.2,       # one controller object for two transformers (list of indices)
+                 index_form=rng.choice(["list", "list", "array", "pd_index"]))
     elif kind == "const":
         c.update(element=rng.choice(["load", "sgen"]), variable="p_mw", row=rng.randrange(100))
     elif kind == "characteristic":
@@ -82,7 +84,8 @@ def generate(rng, idx, tier):
         ol.append({"op": "start_tap", "element": rng.choice(["trafo", "trafo", "trafo3w"]), "row": rng.randrange(100),
                    "frac": rng.choice([0.0, 1.0, round(rng.random(), 3), round(rng.random(), 3)]),
                    "neg_step": rng.random() < 0.1, "tap_side": rng.choice([None, "hv", "lv", "lv", "mv", "mv"]),
-                   "eg_vm": rng.choice([None, None, 0.96, 1.06])})
+                   "eg_vm": rng.choice([None, None, 0.96, 1.06]),
+                   "step_degree": rng.choice([None, None, None, 180.0, 0.0])})
         if ol[-1]["tap_side"] == "mv":
             ol[-1]["element"] = "trafo3w"       # only a three-winding transformer has a mv winding
     for _ in range(rng.randint(1, 5)):
@@ -197,6 +200,13 @@ def execute(ep, ctx):
                 net[el].at[r, "tap_side"] = op["tap_side"]
                 if el == "trafo3w" and op["tap_side"] == "mv":
                     ctx.probe("trafo3w_tap_changer_on_mv_winding")
+            if op.get("step_degree") is not None and not tabled and "tap_step_degree" in net[el].columns and \
+                    str(net[el].at[r, "tap_changer_type"] if "tap_changer_type" in net[el].columns else "Ratio") \
+                    in ("Ratio", "None", "nan"):
+                # a ratio tap changer whose step acts at 180 degrees lowers the ratio with rising tap position
+                net[el].at[r, "tap_step_degree"] = float(op["step_degree"])
+                if op["step_degree"] == 180.0:
+                    ctx.probe("tap_step_at_180_degrees")
             if op.get("eg_vm"):
                 net.ext_grid["vm_pu"] = op["eg_vm"]     # pushes voltages towards / beyond the bands
             ctx.event("start_tap", el, int(r), int(net[el].at[r, "tap_pos"]))
@@ -244,6 +254,10 @@ def _create_controller(net, op, Probe, Discrete, Continuous, Const):
                           and not pd.isna(net[el].at[x, "tap_pos"])]
                 if others:
                     idx = [int(r), others[op["row"] % len(others)]]
+                    if op.get("index_form") == "array":
+                        idx = np.array(idx)
+                    elif op.get("index_form") == "pd_index":
+                        idx = pd.Index(idx)
                     _PROBE[0] and _PROBE[0]("vectorised_tap_controller")
             if kind == "discrete":
                 return Discrete(net, idx, op["vm_set"] - op["half"], op["vm_set"] + op["half"], side=side,
